@@ -44,9 +44,9 @@ type Val struct {
 }
 
 func nomTy(path ...string) *gTy { return &gTy{K: "nom", Nom: gNom{path}} }
-func optTy(t *gTy) *gTy        { return &gTy{K: "opt", A: t} }
-func arrTy(t *gTy) *gTy        { return &gTy{K: "var", A: t} }
-func dictTy(k, v *gTy) *gTy    { return &gTy{K: "dict", A: k, B: v} }
+func optTy(t *gTy) *gTy         { return &gTy{K: "opt", A: t} }
+func arrTy(t *gTy) *gTy         { return &gTy{K: "var", A: t} }
+func dictTy(k, v *gTy) *gTy     { return &gTy{K: "dict", A: k, B: v} }
 func interTy(n ...string) *gTy {
 	t := &gTy{K: "inter"}
 	for _, x := range n {
@@ -1680,16 +1680,6 @@ func runScenario(sum *lib.Summary, cw *lib.CaseWriter, distinct map[string]bool,
 				ok = "false"
 			}
 			render := func(v *Val) string { return renderAny(in, s.OldG, v, rt.Name == "contract") }
-			_ = func(v *Val) string {
-				if rt.Name == "contract" {
-					var e []string
-					for _, x := range v.FVals {
-						e = append(e, in.value(s.OldG, x))
-					}
-					return fmt.Sprintf("(VComp [%s] %s [%s])", in.id("C"), in.names(v.FNames), strings.Join(e, ";"))
-				}
-				return in.value(s.OldG, v)
-			}
 			// roots read through references (contract fields, borrowed resources) only load what is
 			// accessed; roots read with storage.copy load every stored field
 			reach := rt.Val
